@@ -147,6 +147,11 @@ func (c *cubicState) Update(packetsAcked int) {
 		c.s.rtt.Lock()
 		srtt := c.s.rtt.srtt
 		c.s.rtt.Unlock()
+		if srtt <= 0 {
+			// A round trip shorter than the timestamp clock's granularity is
+			// measured as 0; dividing by it makes the window estimate +Inf.
+			srtt = time.Millisecond
+		}
 		c.s.sndCwnd = c.getCwnd(packetsAcked, c.s.sndCwnd, srtt)
 	}
 }
